@@ -1,6 +1,7 @@
 package main
 
 import (
+	"os"
 	"fmt"
 	"strings"
 
@@ -184,6 +185,175 @@ func checkDowngrade(r *Report, p *Prog) {
 	if n == 0 {
 		r.Undecided(rule, p.FnName(sel)+": certificate string assignments", p.Pos(sel.Pos()), "no assignment from X509Certificates found")
 	}
+	// priority: a certificate of a descriptor with unspecified use is taken only after the scan for use="encryption"
+	// descriptors is complete. Structurally: an encryption-use assignment and an unspecified-use assignment never merge
+	// inside a loop that contains both (two loops, or one loop that keeps the fallback in a separate variable until it ends).
+	type certLeaf struct {
+		phi   *ssa.Phi
+		edge  int
+		class string
+		ap    string
+	}
+	var leaves []certLeaf
+	for _, b := range sel.Blocks {
+		for _, in := range b.Instrs {
+			ph, ok := in.(*ssa.Phi)
+			if !ok || ph.Type().String() != "string" {
+				continue
+			}
+			for i, e := range ph.Edges {
+				ap := fs.AP(e)
+				if !strings.Contains(ap, "X509Certificates") {
+					continue
+				}
+				cnd := fs.Cond(ph.Block().Preds[i])
+				class := "other"
+				for _, name := range B2.Support(cnd) {
+					ai := a2.Atoms[name]
+					if ai == nil || !(ai.Kind == "eq" || ai.Kind == "empty") || !strings.Contains(strings.Join(ai.Args, " "), ".Use") {
+						continue
+					}
+					v := B2.Var(name)
+					switch {
+					case ai.Kind == "empty" && B2.Implies(cnd, v) && class != "encryption":
+						class = "unspecified"
+					case strings.Contains(name, `c:"encryption"`) && B2.Implies(cnd, v):
+						class = "encryption"
+					case strings.Contains(name, `c:""`) && B2.Implies(cnd, v) && class != "encryption":
+						class = "unspecified"
+					}
+				}
+				leaves = append(leaves, certLeaf{ph, i, class, ap})
+				if os.Getenv("SAMLVERIF_DEBUG") != "" {
+					fmt.Printf("DEBUG leaf %s class=%s cond=%s\n", ap, class, B2.String(cnd))
+				}
+			}
+		}
+	}
+	nPairs := 0
+	for _, e := range leaves {
+		if e.class != "encryption" {
+			continue
+		}
+		for _, u := range leaves {
+			if u.class != "unspecified" {
+				continue
+			}
+			nPairs++
+			// the first phi both values flow into
+			merge := firstCommonPhi(e.phi, u.phi)
+			inLoop := false
+			if merge != nil {
+				for _, h := range loopHeadersOf(e.phi.Block().Preds[e.edge]) {
+					for _, h2 := range loopHeadersOf(u.phi.Block().Preds[u.edge]) {
+						if h == h2 && underLoop(h, merge.Block()) {
+							inLoop = true
+						}
+					}
+				}
+			}
+			r.Check(!inLoop, rule, fmt.Sprintf("%s: use=\"encryption\" descriptors take precedence over unspecified use", p.FnName(sel)), p.Pos(sel.Pos()), "the two choices merge only after the scan for encryption descriptors has ended", "an unspecified-use certificate and an encryption-use certificate are chosen in the same pass: an earlier descriptor without use wins over a later use=\"encryption\" one, so the IdP encrypts to a key the SP did not designate for encryption")
+		}
+	}
+	if nPairs == 0 {
+		r.Info(rule, p.FnName(sel)+": precedence of encryption-use descriptors", p.Pos(sel.Pos()), "no pair of (encryption, unspecified) certificate choices recognised; nothing to order")
+	}
+}
+
+// loopHeadersOf: headers of the loops b lies under: b belongs to the natural loop, or is dominated by the loop's body
+// entry (a block that leaves the loop by return/break after having been entered from the body still counts as "in" it).
+func loopHeadersOf(b *ssa.BasicBlock) []*ssa.BasicBlock {
+	var out []*ssa.BasicBlock
+	for _, h := range b.Parent().Blocks {
+		if underLoop(h, b) {
+			out = append(out, h)
+		}
+	}
+	return out
+}
+
+func underLoop(h, b *ssa.BasicBlock) bool {
+	if inNaturalLoop(h, b) {
+		return true
+	}
+	for _, s := range h.Succs {
+		if s != h && inNaturalLoop(h, s) && (s == b || s.Dominates(b)) {
+			return true
+		}
+	}
+	return false
+}
+
+// inNaturalLoop: h is a loop header (has a back edge) and b belongs to its natural loop.
+func inNaturalLoop(h, b *ssa.BasicBlock) bool {
+	var latches []*ssa.BasicBlock
+	for _, p := range h.Preds {
+		if isBackEdge(p, h) {
+			latches = append(latches, p)
+		}
+	}
+	if len(latches) == 0 {
+		return false
+	}
+	if b == h {
+		return true
+	}
+	if !h.Dominates(b) {
+		return false
+	}
+	// b reaches a latch without passing through h
+	seen := map[*ssa.BasicBlock]bool{h: true}
+	var dfs func(x *ssa.BasicBlock) bool
+	dfs = func(x *ssa.BasicBlock) bool {
+		for _, l := range latches {
+			if x == l {
+				return true
+			}
+		}
+		if seen[x] {
+			return false
+		}
+		seen[x] = true
+		for _, s := range x.Succs {
+			if dfs(s) {
+				return true
+			}
+		}
+		return false
+	}
+	return dfs(b)
+}
+
+// firstCommonPhi: the first phi (in flow order from a) that both a and b flow into through phi edges; a or b themselves count.
+func firstCommonPhi(a, b *ssa.Phi) *ssa.Phi {
+	reach := func(start *ssa.Phi) (map[*ssa.Phi]bool, []*ssa.Phi) {
+		seen := map[*ssa.Phi]bool{}
+		var order []*ssa.Phi
+		work := []*ssa.Phi{start}
+		for len(work) > 0 {
+			x := work[0]
+			work = work[1:]
+			if seen[x] {
+				continue
+			}
+			seen[x] = true
+			order = append(order, x)
+			for _, ref := range *x.Referrers() {
+				if ph, ok := ref.(*ssa.Phi); ok {
+					work = append(work, ph)
+				}
+			}
+		}
+		return seen, order
+	}
+	sb, _ := reach(b)
+	_, oa := reach(a)
+	for _, x := range oa {
+		if sb[x] {
+			return x
+		}
+	}
+	return nil
 }
 
 // reachedAfter: True (placeholder for readability: the call's own block condition is already conjoined).
